@@ -628,7 +628,16 @@ func (st *wstate) runLifetime(i int, l *scen.Lifetime) {
 					}
 				}
 				if !stored {
-					vv := viol("claimed-write-did-not-happen", i, ev.CallID, item, concProps("C20"), "call %d (%s %s) signals %q, but no write of this call succeeded (injected fault: every write of the call failed or none was made)", ev.CallID, ex.Call.API, item, obs)
+					cprops := []string{"C20"}
+					if obs == model.Updated {
+						cprops = append(cprops, "C04") // "rewrites ... to exactly the new values": nothing was rewritten
+					} else {
+						cprops = append(cprops, "C03") // the slot the call claims to have created does not exist
+					}
+					if scen.Standalone(ex.Call.API) {
+						cprops = append(cprops, "C19")
+					}
+					vv := viol("claimed-write-did-not-happen", i, ev.CallID, item, concProps(uniq(cprops)...), "call %d (%s %s) signals %q, but no write of this call succeeded (injected fault: every write of the call failed or none was made)", ev.CallID, ex.Call.API, item, obs)
 					if st.hit(vv) {
 						return
 					}
